@@ -2,6 +2,8 @@ package node
 
 import (
 	"fmt"
+	"net"
+	"os"
 	"sync"
 	"sync/atomic"
 	"testing"
@@ -60,6 +62,9 @@ func TestC15Race(t *testing.T) {
 			key = &[32]byte{4, 5, 6}
 		}
 		var tsCounter uint64 = 9000000
+		if inKey != nil && rapid.Bool().Draw(t, "peer_clocks_an_hour_ahead") {
+			tsCounter = since2015(time.Now()) + 360000000 // the peers' clocks run an hour ahead of this machine's
+		}
 		signIn := func(f ref.Frame, link byte) ref.Frame {
 			if inKey == nil || !f.V2 {
 				return f
@@ -152,6 +157,26 @@ func TestC15Race(t *testing.T) {
 		}()
 		stop := make(chan struct{})
 		var wg sync.WaitGroup
+		// a link in trouble: now and then a write on the first custom transport runs into its deadline, and a moment
+		// later its read side fails too (the channel ends and the transport is handed out again) - all of it while
+		// writers, readers and the router are busy
+		if ncustom > 0 && rapid.Bool().Draw(t, "first_custom_link_in_trouble") {
+			wg.Add(1)
+			go func() {
+				defer wg.Done()
+				for k := 0; ; k++ {
+					select {
+					case <-stop:
+						return
+					default:
+					}
+					time.Sleep(3 * time.Millisecond)
+					pipes[0].FailNextWrite(&net.OpError{Op: "write", Net: "tcp", Err: os.ErrDeadlineExceeded})
+					time.Sleep(time.Millisecond)
+					pipes[0].FailNextRead(fmt.Errorf("injected read error %d", k))
+				}
+			}()
+		}
 		// feeders: every custom channel gets ArduPilot heartbeats from several senders plus DEBUG frames
 		for i, p := range pipes {
 			wg.Add(1)
